@@ -13,6 +13,7 @@ import numpy as np
 from harness import common
 from harness.common import zlit, zlist, zpairs
 
+GEN_MODULES = ['livetime']
 MODEL_TARGETS = ['model/M_Livetime.vo']
 PROOF_TARGETS = ['proofs/P_Livetime.vo']
 LEVEL = 'proof'
